@@ -127,6 +127,8 @@ fn in_sim<R>(f: impl FnOnce() -> R) -> R {
 struct SchedState {
     current: usize,
     runnable: Vec<bool>,
+    /// threads currently waiting for the baton in `wait_for`
+    parked: Vec<bool>,
     parked_in_op: Vec<bool>,
     pos: usize,
     trace: Vec<u8>,
@@ -148,7 +150,7 @@ struct Sched {
     free: bool,
 }
 
-const STALL: Duration = Duration::from_millis(1500);
+const STALL: Duration = Duration::from_millis(500);
 
 impl Sched {
     fn new(n: usize, decisions: Vec<u8>, free: bool) -> Self {
@@ -157,6 +159,7 @@ impl Sched {
             st: Mutex::new(SchedState {
                 current: 0,
                 runnable: vec![true; n],
+                parked: vec![false; n],
                 parked_in_op: vec![false; n],
                 pos: 0,
                 trace: Vec::new(),
@@ -194,12 +197,16 @@ impl Sched {
     /// only possible with code that has introduced blocking shared state), the
     /// lowest parked thread takes the baton over so that the run terminates.
     fn wait_for(&self, me: usize, mut st: std::sync::MutexGuard<'_, SchedState>) {
+        st.parked[me] = true;
         while st.current != me {
             let seen = st.progress;
             let (g, to) = self.cv.wait_timeout(st, STALL).unwrap();
             st = g;
             if to.timed_out() && st.current != me && st.progress == seen {
-                let lowest = (0..st.runnable.len()).find(|&i| st.runnable[i] && i != st.current);
+                // only a thread that is really parked here can take over (the
+                // holder, and threads declared stalled earlier, may all be
+                // blocked in the kernel on something a parked thread owns)
+                let lowest = (0..st.runnable.len()).find(|&i| st.runnable[i] && st.parked[i]);
                 if lowest == Some(me) {
                     st.stalls += 1;
                     st.current = me;
@@ -208,6 +215,7 @@ impl Sched {
                 }
             }
         }
+        st.parked[me] = false;
     }
 
     fn start(&self, me: usize) {
